@@ -311,6 +311,15 @@ def check(res, tr, how):
             # nothing delivered although messages are waiting: is the consumer even trying?
             w_after = [w_ for w_ in fetchish_writes(tr) if w_[0] > st["idx"]]
             sit = "+".join(tr.info.get("stop_sit") or ["?"])
+            # records reached the client after the restart (a fetch answered with data a good second before the end
+            # of observation)?  If every fetch since the restart met the fault plan (silent, dropped, late) the
+            # consumer is being starved, not wedged: it is trying, and nothing says how long that may take.
+            fed = [e_ for e_ in tr.cluster.history if e_.get("api") == "Fetch" and "req" in e_ and e_["t"] >= st["t"]
+                   and e_.get("replied") == "sent" and (e_.get("reply_t") or 0) <= tr.w.clock.seconds() - 1.0
+                   and any(r_.get("served_bytes") for r_ in (e_.get("result") or []) if isinstance(r_, dict))]
+            if w_after and not fed:
+                res.hit("restart_starved_by_the_fault_plan")
+                continue
             res.violate("restart-wedged/%s" % ("no-request-ever-sent" if not w_after else "no-delivery"),
                         "after stop() and start(%d) the consumer delivered nothing although %d record(s) are "
                         "available; requests written after the restart: %d" % (arg, len(avail), len(w_after)),
